@@ -115,6 +115,8 @@ class StoreLib(LibBase):
         props = set(con.props) | {"C20"}
         if con.keeps_inv or con.uses_inv:
             props |= {"C01", "C02", "C04", "C05", "C06", "C07", "C18"}
+            if cls in ("B", "L"):
+                props |= {"C11"}
         return props
 
     # ------------------------------------------------------------------ state
@@ -264,11 +266,13 @@ class StoreLib(LibBase):
                     out.append(("I-fleet.af-distinct." + nm, V.forall_idx(f[nm], lambda i, e: e.t != af, "af-distinct"),
                                 ("C14",)))
         # I-nlw
-        out.append(("I-nlw-put", z3.Implies(Qp.len > 0, z3.Not(self.grantable_put(cls, st))), ("C04",)))
+        # can_put()/can_get() of the Buffer and Fleet edges are exact only because of these two (C11)
+        nlw_props = ("C04", "C11") if cls in ("B", "L") else ("C04",)
+        out.append(("I-nlw-put", z3.Implies(Qp.len > 0, z3.Not(self.grantable_put(cls, st))), nlw_props))
         if p["filt"]:
             out.append(("I-nlw-get", self.nlw_get_filter(st), ("C04",)))
         else:
-            out.append(("I-nlw-get", z3.Implies(Qg.len > 0, z3.Not(self.grantable_get(cls, st))), ("C04",)))
+            out.append(("I-nlw-get", z3.Implies(Qg.len > 0, z3.Not(self.grantable_get(cls, st))), nlw_props))
         # I-ord
         out.append(("I-ord.Qp", self.sorted_clause(cls, st, Qp, "put"), ("C05",)))
         out.append(("I-ord.Qg", self.sorted_clause(cls, st, Qg, "get"), ("C05",)))
